@@ -134,4 +134,13 @@ bool ops_misc(Ctx& c, const json& s, int idx, bool& handled) {
 			if (!err) { std::size_t w = T == "i8" ? 1 : 2, n = s["count"]; if (got.size() != n || !std::equal(got.begin(), got.end(), img.begin() + w) || r->Position() != s["consumed"].get<unsigned long long>()) { Proto::mismatch(bsite, "bytes", note()); return false; } }
 			else if (r->Position() > r->Length()) { Proto::mismatch(bsite, "state-after-failure", note()); return false; } }
 		return true; }
+	// ---- C14 (c): typed writes of fixed-size values / containers produce the little-endian bytes of the specification and are inverted by the typed reads ----
+	if (op == "typed_roundtrip") { const int w = s["width"]; std::vector<unsigned long long> vals; for (auto& v : s["values"]) vals.push_back(v.get<unsigned long long>()); auto want = Scen::expand(s["segs"]);
+		auto run = [&](auto tag) -> bool { using T = decltype(tag); std::vector<T> in; for (auto v : vals) in.push_back((T)v);
+			Stream::DynamicMemoryWriter w1; for (T v : in) w1.Write(v); Stream::DynamicMemoryWriter w2; w2.Write(in);            // one by one, and as a container
+			auto b1 = dyn_bytes(w1), b2 = dyn_bytes(w2); if (b1 != want || b2 != want) { Proto::mismatch(site, "bytes", where("width " + std::to_string(w) + " " + Scen::hexdiff(b1 != want ? b1 : b2, want))); return false; }
+			std::vector<unsigned char> fixedBuf(want.size() + 4, 0xEE); Stream::MemoryWriter mw(fixedBuf.data() + 2, want.size()); mw.Write(in); if (!std::equal(want.begin(), want.end(), fixedBuf.begin() + 2) || fixedBuf[0] != 0xEE || fixedBuf[1] != 0xEE || fixedBuf[want.size() + 2] != 0xEE) { Proto::mismatch(site, "fixed-buffer", where("")); return false; }
+			Stream::MemoryReader r(want.data(), want.size()); std::vector<T> back(in.size()); r.Read(back); if (back != in || r.Position() != want.size()) { Proto::mismatch(site, "read-back", where("container")); return false; }
+			Stream::MemoryReader r2(want.data(), want.size()); for (T v : in) { T x; r2.Read(x); if (x != v) { Proto::mismatch(site, "read-back", where("value")); return false; } } return true; };
+		return w == 1 ? run(uint8_t{}) : w == 2 ? run(uint16_t{}) : run(uint32_t{}); }
 	OPS_EPILOGUE }
